@@ -335,7 +335,18 @@ def item_definitions_xml(tree, root_name="T"):
         return "", TYPEREF[tree["builtin"]]
     defs = _Defs()
     root = _item("itemDefinition", root_name, tree["root"], defs)
-    return "\n".join(defs.top + [root]), root_name
+    # document order of the item definitions is not part of a model's meaning: a third of the trees declare every
+    # referenced definition BEFORE its user (the order the shipped models use), a third AFTER it (forward references),
+    # a third in between
+    import hashlib as _hl
+
+    order = int(_hl.sha1(repr(tree).encode()).hexdigest(), 16) % 3
+    items = defs.top + [root]
+    if order == 1:
+        items = list(reversed(items))
+    elif order == 2 and len(items) > 2:
+        items = items[1:] + items[:1]
+    return "\n".join(items), root_name
 
 
 NS = "https://www.omg.org/spec/DMN/20191111/MODEL/"
